@@ -117,7 +117,7 @@ def histories(tier, seed):
         ini = rng.choice(INITIALS[1:])
         h = sr.random_history(rng, rng.randint(2, 6), model_of(ini), names=['a', 'b', 'c'],
                               tpls=('T1', 'T2', 'T3', 'T4'), max_comps=3)
-        if any(o['op'] in ('add', 'addex', 'adddel') for o in h):
+        if any(o['op'] in ('add', 'addex', 'adddel') or o.get('tpl') == 'T0' for o in h):
             continue
         h = [dict(o) for o in h]
         h[0]['bare'] = True
